@@ -54,9 +54,15 @@ def harnesses(tier):
         hs.append(Harness('V.' + name, FAM, [rx], 'c12_vector.c', stubs=[r'chaiscript::Boxed_Value::~Boxed_Value', r'std::range_error::', r'std::out_of_range::'], shapes=shapes,
                           opts=['--unwind', str(max(ks) + 4)], timeout=300, mem_gb=6, string_model=True, defines={'STRING_LITERALS_OPAQUE': 1}, inputs=['idx'],
                           note='arbitrary int index/position; exactly K elements; with and without spare capacity (reallocation path of insert/push_back is real libstdc++ code)'))
+    BR = r'^[^(]*' + SL + r'Bidir_Range<' + VEC + r', __gnu_cxx::__normal_iterator<chaiscript::Boxed_Value\*, [^(]*>::'
+    for code, nm, tail, needs in ((1, 'empty', r'empty\(\) const$', 0), (2, 'pop_front', r'pop_front\(\)$', 1), (3, 'pop_back', r'pop_back\(\)$', 1), (4, 'front', r'front\(\) const$', 1), (5, 'back', r'back\(\) const$', 1), (6, 'ctor', r'Bidir_Range\(std::vector<[^(]*&\)$', 0)):
+        rx = BR + tail
+        shapes = [dict(OP=code, FN=core.csym(FAM, rx), K=k, _tag='K=%d' % k, _witness=(('witness: operation performed',) if (k or not needs) else ()) + (('witness: precondition violated',) if needs else ())) for k in ks]
+        hs.append(Harness('R.' + nm, FAM, [rx], 'c12_range.c', stubs=[r'std::range_error::'], shapes=shapes, opts=['--unwind', '4'], timeout=120, mem_gb=4, inputs=['i0', 'i1'],
+                          note='range [begin,end] anywhere inside a vector of exactly K elements, both ends symbolic'))
     return hs
 
 ASSUMPTIONS = ['elements are Boxed_Values without control block (copy/destroy of an element is a pointer copy; ownership is C11)', 'operator new = malloc that does not fail',
                'std::range_error / std::out_of_range construction is cut']
-OUTSIDE = ['Map (std::map internals are not modelled)', 'string find family (pure forwarding to libstdc++)', 'range views after structural modification of their container (documented known finding of the property)',
+OUTSIDE = ['Map (std::map internals are not modelled)', 'string find family (pure forwarding to libstdc++)', 'range views after structural modification of their container (documented exception of the property); the const-container range type',
            'resize/reserve with sizes above the harness bound']
